@@ -186,6 +186,23 @@ def _t_keyed(kind, how='result'):
 def _t_stale(data=ABSENT, peek=True): return ('error', (70003, 'probe long-lived error', data), ('stale', (data, peek), {}))
 
 
+def _plain_int(v): return isinstance(v, int) and not isinstance(v, bool)
+
+
+def _t_users_create(item):
+    # (only clearly conforming / clearly non-conforming values are sent: what pydantic's lax mode would convert is not probed)
+    if not (isinstance(item, dict) and isinstance(item.get('name'), str)):
+        return ('invalid', None, None)
+    return ('result', ['user', item['name']], ('users.create', ({'name': item['name']},), {}))
+
+
+def _t_orders_create(item):
+    if not (isinstance(item, dict) and _plain_int(item.get('sku')) and _plain_int(item.get('qty', 1))):
+        return ('invalid', None, None)
+    d = {'sku': item['sku'], 'qty': item.get('qty', 1)}
+    return ('result', ['order', d['sku'], d['qty']], ('orders.create', (d,), {}))
+
+
 def _t_byid(id, extra=0): return ('result', ['byid', id, extra], ('byid', (id, extra), {}))
 def _t_wrapped(a, b=0): return ('result', ['wrapped', a, b], ('wrapped', (a, b), {}))
 def _t_vm(a, b=0): return ('result', ['vm', a, b], ('view.vm', (a, b), {}))
@@ -198,7 +215,7 @@ TWINS = {
     'cowrapped': _t_cowrapped, 'js_draft4': _t_js_draft4, 'window': _t_window, 'mutate': _t_mutate, 'broken.vm': _t_broken,
     'odd_defaults': _t_odd_defaults, 'tc_only': _t_tc_only, 'pd_strip': _t_pd_strip, 'view.cm': _t_cm, 'view.sm': _t_sm, 'view.note': _t_note, 'cnt.bump': _t_bump,
     'pd_even': _t_pd_even, 'pd_span': _t_pd_span, 'pd_asis': _t_pd_asis, 'js_ref': _t_js_ref, 'rpc.ping': _t_rpc_ping, 'js_list': _t_js_list, 'ctxm_plain': _t_ctxm_plain,
-    'keyed': _t_keyed, 'stale': _t_stale,
+    'keyed': _t_keyed, 'stale': _t_stale, 'users.create': _t_users_create, 'orders.create': _t_orders_create,
 }
 
 
